@@ -195,3 +195,49 @@ PROPS["C12"] = {
                     "hospitality / log counters are not modelled (not observable through the API)"],
 }
 PROPS["C13"] = dict(PROPS["C12"], runs=[{"component": "immunity", "labels": {1, 2, 3, 4, 5, 6, 9, 10, 11, 12, 13, 14, 15, 16, 17, 20, 21}, "n_quick": 2000, "n_thorough": 20000}])
+
+PROPS["C03"] = {
+    "runs": [{"component": "pool", "labels": {1, 2, 10, 11, 12, 13, 14}, "n_quick": 1500, "n_thorough": 30000}],
+    "anchors": POOL_ANCHORS + ["txcache/README.md"], "rule": POOL_RULE, "exhaustive_claim": True,
+    "explanation": "Exact equality of the selected hash sequence and of the accumulated gas between the implementation and the deterministic "
+                   "model (Selection.v: loop with pick = the unique maximum of the strict total order more_valuable), pool views unchanged by a "
+                   "selection; monitors: an independent Go reference of the documented greedy merge, repeatability, prefix under lower "
+                   "maxNum/gasRequested/time budget, same set inserted in reverse order with another NumChunks selects identically, stored "
+                   "PricePerUnit = floor(fee/gasLimit) computed with math/big.",
+    "assumptions": ["hash determines content", "container/heap is replaced by 'extreme element of a strict total order' (proved unique; validated by the exact comparison)",
+                    "a quotient fee/gasLimit >= 2^64 is unrepresentable in the uint64 field: the code saturates at 2^64-1 (situation ppu-unrepresentable)"],
+}
+PROPS["C04"] = {
+    "runs": [{"component": "pool", "labels": {1, 13, 14}, "n_quick": 1500, "n_thorough": 30000}],
+    "anchors": POOL_ANCHORS, "rule": POOL_RULE, "exhaustive_claim": True,
+    "explanation": "Props/C04.v over all histories; correspondence: AddTx/RemoveTxByHash return values, sorted Keys and the exact per-sender hash "
+                   "sequences after every operation (eviction disabled in these histories so that C07 is not a premise); monitors implement the "
+                   "reference rules of the property text. The full 'dropped until it fits' clause is refuted for the code (F4, known finding).",
+    "assumptions": ["hash determines content", "uint64 nonces"],
+}
+PROPS["C05"] = {
+    "runs": [{"component": "pool", "labels": {10, 11, 12, 13, 14}, "n_quick": 1000, "n_thorough": 20000},
+             {"component": "pool", "variant": "evict", "labels": set(), "n_quick": 1200, "n_thorough": 20000}],
+    "anchors": POOL_ANCHORS, "rule": POOL_RULE + " The 'evict' variant enables eviction (thresholds 4-6 / 250-900 B, batch 1-7); there only the monitors "
+            "decide (Keys vs union of per-sender pools, CountTx/Len/NumBytes/CountSenders), so that a change of eviction order (C07) does not touch C05.",
+    "exhaustive_claim": True,
+    "explanation": "Props/C05.v: the invariant (both indexes the same duplicate-free set, three counters exact, no empty sender list) proved for every "
+                   "history incl. eviction and Clear; correspondence on counters and views without eviction, monitors everywhere.",
+    "assumptions": ["hash determines content", "sequential histories (C14 covers concurrency)"],
+}
+PROPS["C06"] = {
+    "runs": [{"component": "pool", "labels": {10, 11, 12, 14}, "n_quick": 1000, "n_thorough": 20000},
+             {"component": "pool", "variant": "evict", "labels": set(), "n_quick": 1200, "n_thorough": 20000}],
+    "anchors": POOL_ANCHORS, "rule": POOL_RULE + " The 'evict' variant enables eviction; there only the monitors decide (bounds after every AddTx).",
+    "exhaustive_claim": True,
+    "explanation": "Props/C06.v: per-sender count bound for all histories; byte bound partial (F4 refuted witness); pool-wide excess of at most the "
+                   "transaction just added and eviction running until within thresholds (fuel and exhaustiveness proved).",
+    "assumptions": ["sizes >= 0", "thresholds as accepted by NewTxCache (>= 0, batch >= 1)", "hash determines content"],
+}
+PROPS["C07"] = {
+    "runs": [{"component": "pool", "labels": {1, 10, 11, 12, 13, 14}, "n_quick": 1500, "n_thorough": 30000}],
+    "anchors": POOL_ANCHORS, "rule": POOL_RULE, "exhaustive_claim": True,
+    "explanation": "Props/C07.v; correspondence: exact pool views (Keys, per-sender lists, counters) after every AddTx on eviction-enabled "
+                   "configurations, i.e. the exact evicted set; monitors: an independent Go reference of the documented eviction procedure.",
+    "assumptions": ["hash determines content", "container/heap replaced by 'least element of a strict total order' (proved; validated by exact comparison)"],
+}
